@@ -173,9 +173,16 @@ class Inventory:
             f = prog.fns[p]
             res.fn(f)
             a = assume_for(f) if assume_for else None
+            if "{closure#" in p and p.rsplit("::{closure#", 1)[0] in getattr(self, "sem_decided", ()):
+                # a closure of a function decided by abstract interpretation is interpreted in its caller's context there
+                self.res.ob("P-sem", "%s | interpreted in the context of its parent (abstract interpretation)" % p, True, "", f.loc)
+                continue
             if a is None and "{closure#" in p:
                 a = closure_item_assumption(prog, f)
+            before = self.stats.get("sem", 0)
             self.fn(f, a)
+            if self.stats.get("sem", 0) > before:
+                self.sem_decided = getattr(self, "sem_decided", set()) | {p}
         return cl
 
     def discharge(self, rule, f, desc, ok, detail, line, how):
